@@ -95,6 +95,9 @@ class Humax4Phase(protocol_base.IrProtocolBase):
         original_code = data[:]
         code = data[:]
 
+        if len(code) < 2:
+            raise LeadInError
+
         mark, space = code[:2]
         code = code[2:]
 
@@ -118,6 +121,9 @@ class Humax4Phase(protocol_base.IrProtocolBase):
         pairs = []
 
         tt = sum(abs(item) for item in original_code[:-1])
+        if not code:
+            raise LeadOutError
+
         lead_out = code[-1]
         code = code[:-1]
 
@@ -136,11 +142,10 @@ class Humax4Phase(protocol_base.IrProtocolBase):
                 raise LeadOutError
 
         while code:
-            try:
-                timings = code[:2]
-                code = code[2:]
-            except ValueError:
-                break
+            timings = code[:2]
+            code = code[2:]
+            if len(timings) < 2:
+                raise IRStreamError
 
             for bursts in self._bursts:
                 if (
